@@ -339,6 +339,106 @@ pub fn check_mutex(c: &MutexCase) -> CaseResult {
     Ok(rep)
 }
 
+// ------------------------------------------------------------------------------------------
+// reader limit: the lock starts with (almost) the maximum number of read guards alive - the
+// state after that many leaked guards - and try_read must stop admitting readers at the maximum
+// (a blocking read() at the maximum panics by design, as in std, and is not part of this domain)
+// ------------------------------------------------------------------------------------------
+
+#[derive(Debug, Clone, Copy, Serialize, Deserialize, PartialEq)]
+pub enum LOp {
+    TryRead,
+    /// one of the pre-existing readers leaves
+    Release,
+    /// the oldest guard obtained in this case is dropped
+    DropGuard,
+    TryWrite,
+}
+
+#[derive(Debug, Clone, Serialize, Deserialize)]
+pub struct LimitCase {
+    /// the lock starts with MAX_READERS - below read guards alive
+    pub below: u8,
+    pub ops: Vec<LOp>,
+}
+
+pub fn check_rw_limit(c: &LimitCase) -> CaseResult {
+    let mut rep = CaseReport::new();
+    let Some(max) = RwLock::<Tracked>::VERIF_MAX_READERS else {
+        rep.class("reader-limit-not-reachable(lock internals changed shape)");
+        return Ok(rep);
+    };
+    let start = max - u32::from(c.below.min(4));
+    let ops = c.ops.clone();
+    let result: Rc<std::cell::RefCell<Result<(bool, bool), (String, String)>>> = Rc::new(std::cell::RefCell::new(Ok((false, false))));
+    let r2 = result.clone();
+    let out = shim::run_execution(Sched::Preempt(vec![]), Events::default(), 100_000, vec![Box::new(move || {
+        let lock = RwLock::new(Tracked::new(0));
+        lock.verif_preload_readers(start);
+        let mut phantom: u64 = u64::from(start);
+        let mut guards = std::collections::VecDeque::new();
+        let (mut at_max, mut refused_at_max) = (false, false);
+        for (i, op) in ops.iter().enumerate() {
+            let alive = phantom + guards.len() as u64;
+            match op {
+                LOp::TryRead => match lock.try_read() {
+                    Some(g) => {
+                        if alive >= u64::from(max) {
+                            *r2.borrow_mut() = Err(("reader-limit|try_read admitted a reader beyond the maximum".into(), format!("step {i}: {alive} read guards alive (maximum {max}) and try_read returned a guard; the state word now reads as write-locked although only readers hold it")));
+                            return;
+                        }
+                        guards.push_back(g);
+                        if alive + 1 == u64::from(max) {
+                            at_max = true;
+                        }
+                    }
+                    None => {
+                        if alive >= u64::from(max) {
+                            refused_at_max = true;
+                        }
+                    }
+                },
+                LOp::Release => {
+                    if phantom > 0 {
+                        phantom -= 1;
+                        lock.verif_release_reader();
+                    }
+                }
+                LOp::DropGuard => {
+                    guards.pop_front();
+                }
+                LOp::TryWrite => {
+                    if let Some(_g) = lock.try_write() {
+                        if alive > 0 {
+                            *r2.borrow_mut() = Err(("reader-limit|try_write succeeded while read guards are alive".into(), format!("step {i}: {alive} read guards alive")));
+                            return;
+                        }
+                    }
+                }
+            }
+        }
+        *r2.borrow_mut() = Ok((at_max, refused_at_max));
+    })]);
+    if let Some((sig, what)) = out.failure {
+        return Err(Failure::new(format!("RwLock|{sig}"), what));
+    }
+    let verdict = result.borrow().clone();
+    match verdict {
+        Err((sig, what)) => Err(Failure::new(format!("RwLock|{sig}"), what)),
+        Ok((at_max, refused)) => {
+            rep.nontrivial_if(at_max || refused);
+            rep.class_if(at_max, "reader-count-reached-the-maximum");
+            rep.class_if(refused, "try_read-refused-at-the-maximum");
+            Ok(rep)
+        }
+    }
+}
+
+fn limit_case() -> impl Strategy<Value = LimitCase> {
+    let op = prop_oneof![5 => Just(LOp::TryRead), 2 => Just(LOp::Release), 2 => Just(LOp::DropGuard), 1 => Just(LOp::TryWrite)];
+    (0u8..=3, prop::collection::vec(op, 1..14)).prop_map(|(below, ops)| LimitCase { below, ops })
+}
+
 pub fn check_rw(c: &RwCase) -> CaseResult {
     let s = run_rw(c)?;
     let mut rep = CaseReport::new();
@@ -623,6 +723,7 @@ fn main() {
                 }
             }
             ctx.run_prop("rwlock", ctx.cases(40_000, 6_000_000), rw_case(), check_rw);
+            ctx.run_prop("rw-reader-limit", ctx.cases(1_500, 100_000), limit_case(), check_rw_limit);
             real::run_rwlock(ctx);
         }
         p => {
